@@ -84,6 +84,34 @@ def __copy_macro_token(
     )
 
 
+def __template_columns(tokens: list[Token]) -> list[Token]:
+    """
+    Lay the tokens of a macro's body out again so that a token starts at `col + length` of the
+    previous one exactly when it is connected to it.
+    A token that came out of another macro (used in this body) stands for the text of that macro's
+    name in the header line, so its own `col + length` says nothing about what follows it
+    (`#define SEL @e` then `#define NEAR SEL[distance=..5]`).
+
+    :param tokens: Tokens of the macro's body, as tokenized from the header line
+    :return: The same tokens, re-positioned where necessary
+    """
+    result: list[Token] = []
+    for index, token in enumerate(tokens):
+        col = token.col
+        if result:
+            end = result[-1].col + result[-1].length
+            if is_connected(token, tokens[index - 1]):
+                col = end
+            elif col <= end:
+                col = end + 1
+        if col != token.col or token._macro_end is not None:
+            token = Token(
+                token.token_type, token.line, col, token.string, quote=token.quote
+            )
+        result.append(token)
+    return result
+
+
 def __custom_macro_factory(
     replaced_tokens: list[Token], key: str
 ) -> tuple[MacroFactory, int]:
@@ -203,6 +231,7 @@ def __create_macro_factory(
             raise error
 
     # Creating template
+    replaced_tokens = __template_columns(replaced_tokens)
     template_tokens: list[Token | tuple[int, Token]] = []
     replaced_token_col = replaced_tokens[0].col
     for token in replaced_tokens:
